@@ -20,7 +20,7 @@ From SK Require Import lib.Tok lib.LGraph model.C03_Model proof.C03_Spec proof.C
                        proof.C03_ExplicitH proof.C03_ExplicitShape proof.C03_ExplicitTotal proof.C03_Expand
                        proof.C03_Link proof.C03_Default proof.C03_Iso
                        proof.C03_Skeleton proof.C03_StripCounts
-                       proof.C03_Wiring proof.C03_WiringCount proof.C03_PairIds.
+                       proof.C03_Wiring proof.C03_WiringCount proof.C03_PairIds proof.C03_StripExact proof.C03_StripCor.
 Import ListNotations.
 Local Open Scope Z_scope.
 
@@ -249,6 +249,61 @@ Theorem C03_synrule_default_counts : forall (tpl rc : its) (l r : molg),
        exists (la ra : mnode), label l k = Some la /\ label r k = Some ra /\ a_hc (iG a) = m_hc la /\ a_hc (iH a) = m_hc ra).
 Proof. exact synrule_default_counts. Qed.
 Print Assumptions C03_synrule_default_counts.
+
+(** default mode, templates whose atoms have the same element on both sides (every ITS built from a reaction): the rule
+    EXACTLY.  The removed atoms R are precisely the explicit hydrogens that have a non-hydrogen neighbour on the left AND
+    on the right side (all removed in step 2, from all three graphs; step 3 removes nothing); the rule graph is the
+    template without them (same_core, bonds avoiding R); each side graph is the template's side without them, a kept
+    heavy atom's hcount = number of its bonds to R on that side; the rule graph's hydrogen counts are the sides'. *)
+Theorem C03_synrule_default_exact : forall (tpl rc : its) (l r : molg),
+  nodupb (node_ids tpl) = true -> (forall (k : N) (a : inode), In (k, a) (gnodes tpl) -> a_el (iH a) = a_el (iG a)) ->
+  synrule tpl true = Some (rc, l, r) ->
+  exists R : list N,
+    (forall h : N, In h R <-> is_H_i tpl h = true /\ heavy_nbr (side0 iG eG tpl) h = true /\ heavy_nbr (side0 iH eH tpl) h = true) /\
+    (Forall2 same_core (gnodes rc) (filter (keepn R) (gnodes tpl)) /\ gedges rc = filter (keepe R) (gedges tpl)) /\
+    (Forall2 (mrel (sum_cnt (gedges (side0 iG eG tpl)) R)) (gnodes l) (filter (mkeepn R) (gnodes (side0 iG eG tpl))) /\
+     gedges l = filter (mkeepe R) (gedges (side0 iG eG tpl))) /\
+    (Forall2 (mrel (sum_cnt (gedges (side0 iH eH tpl)) R)) (gnodes r) (filter (mkeepn R) (gnodes (side0 iH eH tpl))) /\
+     gedges r = filter (mkeepe R) (gedges (side0 iH eH tpl))) /\
+    (forall (k : N) (a : inode), In (k, a) (gnodes rc) ->
+       exists (la ra : mnode), label l k = Some la /\ label r k = Some ra /\ a_hc (iG a) = m_hc la /\ a_hc (iH a) = m_hc ra).
+Proof. exact synrule_default_exact. Qed.
+Print Assumptions C03_synrule_default_exact.
+
+(** the same, in the forms other properties use.  Totality: on such a template rule preparation never fails. *)
+Theorem C03_synrule_default_total : forall tpl : its,
+  nodupb (node_ids tpl) = true -> (forall (k : N) (a : inode), In (k, a) (gnodes tpl) -> a_el (iH a) = a_el (iG a)) ->
+  exists (rc : its) (l r : molg), synrule tpl true = Some (rc, l, r).
+Proof. exact synrule_default_total. Qed.
+Print Assumptions C03_synrule_default_total.
+
+(** atom by atom: the rule's atoms are the template's atoms outside R, in the template's order, on all three graphs; a
+    kept atom keeps both tuples up to the hydrogen count, and its two hydrogen counts are the numbers of its left / right
+    bonds to the removed hydrogens (0 for a kept hydrogen atom); if every hydrogen atom of the template is removed the
+    left graph has no explicit hydrogen left and is itself the pattern that is matched *)
+Theorem C03_synrule_default_pointwise : forall (tpl rc : its) (l r : molg),
+  nodupb (node_ids tpl) = true -> (forall (k : N) (a : inode), In (k, a) (gnodes tpl) -> a_el (iH a) = a_el (iG a)) ->
+  synrule tpl true = Some (rc, l, r) ->
+  exists R : list N,
+    NoDup R /\
+    (forall h : N, In h R <-> is_H_i tpl h = true /\ heavy_nbr (side0 iG eG tpl) h = true /\ heavy_nbr (side0 iH eH tpl) h = true) /\
+    node_ids rc = filter (fun n => negb (mem n R)) (node_ids tpl) /\ node_ids l = node_ids rc /\ node_ids r = node_ids rc /\
+    NoDup (node_ids rc) /\ gedges rc = filter (keepe R) (gedges tpl) /\
+    (forall (k : N) (a0 : inode), label tpl k = Some a0 -> ~ In k R ->
+       exists a : inode, label rc k = Some a /\ set_hc (iG a) 0 = set_hc (iG a0) 0 /\ set_hc (iH a) 0 = set_hc (iH a0) 0 /\
+                 a_hc (iG a) = (if N.eqb (a_el (iG a0)) EL_H then 0 else sum_cnt (gedges (side0 iG eG tpl)) R k) /\
+                 a_hc (iH a) = (if N.eqb (a_el (iG a0)) EL_H then 0 else sum_cnt (gedges (side0 iH eH tpl)) R k)) /\
+    ((forall h : N, is_H_i tpl h = true -> In h R) -> has_XH l = false /\ h_to_implicit l = l).
+Proof. exact synrule_default_pointwise. Qed.
+Print Assumptions C03_synrule_default_pointwise.
+
+(** the counts as sums of adjacency indicators of the template (one bond per atom pair) *)
+Theorem C03_sum_cnt_adjacent : forall (sn : inode -> nattr) (se : iedge -> Z) (tpl : its) (R : list N) (k : N),
+  simple_edgesb (gedges tpl) = true ->
+  sum_cnt (gedges (side0 sn se tpl)) R k
+  = Z.of_nat (length (filter (fun h => match adj tpl k h with Some x => 0 <? se x | None => false end) R)).
+Proof. exact sum_cnt_adjacent. Qed.
+Print Assumptions C03_sum_cnt_adjacent.
 
 (** ... and therefore, in default mode, the changed bonds of every proposed ITS (before _explicit_h re-materialises the
     migrating hydrogens) are exactly the images of the template's changed bonds that touch no stripped hydrogen *)
